@@ -341,7 +341,7 @@ fn main() {
     cov.transitions = cov.evaluations;
     cov.traces_validated = cov.evaluations;
     cov.distinct_nontrivial = all.get("zerv_error") + all.get("usage_error") + all.get("process_failed") + all.get("fault_plans");
-    cov.rule = format!("(a) flags read from Cli::command() at run time; for version and flow in 4 source contexts every single flag x a {}-value adversarial pool, every pair of flags x a {}-value pool, malformed stdin documents; 133 custom precedence orders (every single, every ordered pair, every all-but-one, reversed) on stdin and via --schema-ron x every bump/override flag x a 5-value pool; render/check on {} nasty version strings x formats x templates; every template function x argument pool singles, pairs and (value, pair) triples: {} in-process runs under catch_unwind; (b) a strided slice of those through the real binary plain, with -v and under RUST_LOG=trace / a malformed RUST_LOG / ZERV_FORCE_RUST_LOG_OFF (stdout and status identical, exit/stream protocol), help/version/llm-help; (c) git faults: for each of 6 repository scenarios x [version, flow] the shim records the N git calls of a fault-free run, then every k<=N x 17 fault modes (6 failure modes: exit 1, exit 128, garbage, empty, SIGKILL, silent exit 1; 11 hostile-content modes with status 0: negative / 20-digit / i64::MAX / 2^32 / zero numbers, blank, two hash lines, non-UTF-8 tag names, a 200 KB line, a tag list, stderr noise) (deviation 1){}, plus git missing / -C to a missing path / file / non-repository; (d) through the binary only: 21 recursive input shapes (template parentheses / if / for / + / and / function / filter / ~ / array / path / not nesting or chains, custom JSON, --schema-ron, --branch-rules, stdin documents, long SemVer / PEP 440 strings) at sizes 8, 64, 512, 4096 (thorough also 16384, 60000) and stdin byte contents (invalid UTF-8, NUL, BOM, CRLF, Latin-1): zerv must terminate without abort; (e) 49 repositories whose branch name is 40-240 bytes of 1/2/3/4-byte characters at every alignment (half of them with 40 long non-ASCII tags on the tagged commit) x version/flow x plain / -v / RUST_LOG=trace / --verbose+RUST_LOG=debug. non-trivial = runs that end in an error path plus fault plans", pool.len(), spool.len(), versions.len(), jobs.len(), if quick { "" } else { " and every pair of fault points in 2 modes (deviation 2)" });
+    cov.rule = format!("(a) flags read from Cli::command() at run time; for version and flow in 4 source contexts every single flag x a {}-value adversarial pool, every pair of flags x a {}-value pool, malformed stdin documents; 133 custom precedence orders (every single, every ordered pair, every all-but-one, reversed) on stdin and via --schema-ron x every bump/override flag x a 5-value pool; render/check on {} nasty version strings x formats x templates; every template function x argument pool singles, pairs and (value, pair) triples: {} in-process runs under catch_unwind; (b) a strided slice of those through the real binary plain, with -v and under RUST_LOG=trace / a malformed RUST_LOG / ZERV_FORCE_RUST_LOG_OFF (stdout and status identical, exit/stream protocol), help/version/llm-help; (c) git faults: for each of 7 repository scenarios (incl. a shallow repository) x [version, flow] the shim records the N git calls of a fault-free run, then every k<=N x 17 fault modes (6 failure modes: exit 1, exit 128, garbage, empty, SIGKILL, silent exit 1; 11 hostile-content modes with status 0: negative / 20-digit / i64::MAX / 2^32 / zero numbers, blank, two hash lines, non-UTF-8 tag names, a 200 KB line, a tag list, stderr noise) (deviation 1){}, plus git missing / -C to a missing path / file / non-repository; (d) through the binary only: 21 recursive input shapes (template parentheses / if / for / + / and / function / filter / ~ / array / path / not nesting or chains, custom JSON, --schema-ron, --branch-rules, stdin documents, long SemVer / PEP 440 strings) at sizes 8, 64, 512, 4096 (thorough also 16384, 60000) and stdin byte contents (invalid UTF-8, NUL, BOM, CRLF, Latin-1): zerv must terminate without abort; (e) 49 repositories whose branch name is 40-240 bytes of 1/2/3/4-byte characters at every alignment (half of them with 40 long non-ASCII tags on the tagged commit) x version/flow x plain / -v / RUST_LOG=trace / --verbose+RUST_LOG=debug. non-trivial = runs that end in an error path plus fault plans", pool.len(), spool.len(), versions.len(), jobs.len(), if quick { "" } else { " and every pair of fault points in 2 modes (deviation 2)" });
     cov.exhaustive = true;
     cov.samples = vec![json!(jobs[jobs.len() / 2].0), json!(jobs[17].0), json!({"scenario":"ahead+dirty","command":"flow","fault_at":7,"mode":"garbage"})];
     cov.set("clause_counts", all.to_json());
@@ -368,6 +368,11 @@ fn git_faults(ctx: &Ctx, quick: bool) -> Stats {
     scenarios.push(("no-tags", mk("f_notags", vec![], Head::Branch("main".into()), WorkTree::Clean)));
     scenarios.push(("detached", mk("f_detached", vec![Tag { name: "1.0.0rc1".into(), target: 0, annotated: false }], Head::Detached(1), WorkTree::Clean)));
     scenarios.push(("several-tags", mk("f_several", vec![Tag { name: "v1.0.0".into(), target: 1, annotated: false }, Tag { name: "v1.1.0".into(), target: 1, annotated: true }, Tag { name: "nonversion".into(), target: 2, annotated: false }, Tag { name: "v0.9.0".into(), target: 0, annotated: false }], Head::Branch("main".into()), WorkTree::Clean)));
+    { // shallow repository: the boundary lies between the root and the tag, HEAD is ahead of the tag
+        let d = mk("f_shallow", vec![Tag { name: "v1.2.3".into(), target: 1, annotated: false }], Head::Branch("main".into()), WorkTree::Clean);
+        let sha = gitx::git(&d, &["rev-parse", "HEAD~1"], None);
+        std::fs::write(d.join(".git/shallow"), format!("{}\n", sha.trim())).unwrap();
+        scenarios.push(("shallow-ahead", d)); }
     { let d = root.join("f_nocommits"); let _ = std::fs::create_dir_all(&d); gitx::git(&d, &["init", "-q", "-b", "main"], None); scenarios.push(("no-commits", d)); }
     let path = format!("{}:/usr/local/bin:/usr/bin:/bin", shim_dir.display());
     let modes = ["exit1", "exit128", "garbage", "empty", "kill", "silent1", "neg", "huge", "i64max", "u32over", "zero", "blank", "twolines", "nonutf8name", "longline", "tagish", "stderr0"];
@@ -388,6 +393,8 @@ fn git_faults(ctx: &Ctx, quick: bool) -> Stats {
             // compare with the same run without the shim (the seam must be transparent)
             let plain = zv::run_bin(&args, None, &[], None);
             if plain.stdout != o.stdout || plain.status != o.status { machinery_error(&format!("git shim is not transparent for {name}/{sub}")); }
+            // only the requested result on stdout: the default rendering is exactly one line
+            if plain.status == 0 && plain.stdout_str().matches('\n').count() != 1 { ctx.violation("success_with_extra_stdout_lines", format!("[scenario {name}] {sub}"), json!({"kind":"proc","scenario":name}), format!("stdout {:?}", truncate(&plain.stdout_str(), 200))); }
             for k in 1..=n { for m in modes { plans.push((si, sub, args.clone(), Some(k), None, m, plain.stdout.clone())); } }
             if !quick { for k in 1..=n { for j in (k + 1)..=n { for m in ["exit1", "garbage"] { plans.push((si, sub, args.clone(), Some(k), Some(j), m, plain.stdout.clone())); } } } }
             // the same fault points observed through the lossless object (tag hash / tag time / branch are not all in the default rendering)
